@@ -63,3 +63,13 @@ M("kform-k21-sign", "subspacemin.py", "    K[m:, :m] = mats.L - STZZTY\n", "    
 M("kform-stzzty-from-y-s", "subspacemin.py", "        STZZTY = mats.S.T @ Z @ Z.T @ mats.Y\n", "        STZZTY = mats.Y.T @ Z @ Z.T @ mats.S\n", ["KFORM"])
 Q("kform-k12-explicit", "subspacemin.py", "    K[:m, m:] = (mats.L - STZZTY).T\n", "    K[:m, m:] = mats.L.T - STZZTY.T\n", ["KFORM"])
 Q("kform-theta-division", "subspacemin.py", "    K[:m, :m] = -mats.D - (1 / mats.theta) * YTZZTY\n", "    K[:m, :m] = -mats.D - YTZZTY / mats.theta\n", ["KFORM"])
+
+# ---- KSOLVE (from the mutation sweep's survivors)
+M("ksolve-no-sign-flip", "subspacemin.py", "        v[: int(LK.shape[0] / 2)] *= -1\n", "", ["KSOLVE"], canary=True)
+M("ksolve-flip-all", "subspacemin.py", "        v[: int(LK.shape[0] / 2)] *= -1\n", "        v[: int(LK.shape[0])] *= -1\n", ["KSOLVE"])
+M("ksolve-backward-first", "subspacemin.py",
+  "        v = sp.linalg.solve_triangular(LK, v, lower=True)\n        v[: int(LK.shape[0] / 2)] *= -1\n        v = sp.linalg.solve_triangular(LK.T, v, lower=False)\n",
+  "        v = sp.linalg.solve_triangular(LK.T, v, lower=False)\n        v[: int(LK.shape[0] / 2)] *= -1\n        v = sp.linalg.solve_triangular(LK, v, lower=True)\n", ["KSOLVE"])
+M("ksolve-args-swapped", "subspacemin.py", "        v = sp.linalg.solve_triangular(LK, v, lower=True)\n", "        v = sp.linalg.solve_triangular(v, LK, lower=True)\n", ["KSOLVE"])
+Q("ksolve-trans-form", "subspacemin.py", "        v = sp.linalg.solve_triangular(LK.T, v, lower=False)\n", "        v = sp.linalg.solve_triangular(LK, v, lower=True, trans='T')\n", ["KSOLVE"])
+Q("ksolve-floor-div", "subspacemin.py", "        v[: int(LK.shape[0] / 2)] *= -1\n", "        v[: LK.shape[0] // 2] *= -1\n", ["KSOLVE"])
